@@ -128,7 +128,14 @@ def _dib(rnd):
 
 
 def _srp(rnd):
-    k = rnd.randrange(4)
+    k = rnd.randrange(6)
+    if k >= 4:
+        # any type with either value of the mandatory flag, drawn independently (the factories below always set it)
+        from xknx.knxip.knxip_enum import SearchRequestParameterType as _T
+
+        t = rnd.choice(list(_T))
+        data = {_T.SELECT_BY_SERVICE: bytes([rnd.choice(list(DIBServiceFamily)).value, rnd.randrange(256)]), _T.SELECT_BY_MAC_ADDRESS: bytes(rnd.randrange(256) for _ in range(6)), _T.REQUEST_DIBS: bytes(rnd.choice(list(DIBTypeCode)).value for _ in range(2 * rnd.randrange(1, 4)))}.get(t, b"")
+        return SRP(t, mandatory=rnd.random() < 0.5, data=data)
     if k == 0:
         return SRP.with_programming_mode()
     if k == 1:
